@@ -24,6 +24,7 @@ type gen struct {
 	hotBy   string
 	hotSlot int // table slot written by the last tsetf (-1: none)
 	zombies []zombie
+	pending *mGlobal // mutable ref global that the next (spec-invalid) module reads in an element item
 }
 
 func (g *gen) n(lo, hi int, label string) int { return rapid.IntRange(lo, hi).Draw(g.t, label) }
@@ -574,6 +575,14 @@ func (g *gen) genSpec(k int) *ModSpec {
 		fsig = append(fsig, f.Sig)
 	}
 
+	wrongType := func(elem byte) int { // an immutable imported global of another type than elem, or -1
+		for i := 0; i < v.nIG; i++ {
+			if !v.gt[i].mut && v.gt[i].vt != elem {
+				return i
+			}
+		}
+		return -1
+	}
 	// ---- active element segments (always in bounds: see the excluded classes in check.json) ----
 	if len(v.telem) > 0 {
 		for i, n := 0, g.n(0, 2, "n-elems"); i < n; i++ {
@@ -595,11 +604,24 @@ func (g *gen) genSpec(k int) *ModSpec {
 				it := Expr{K: "null"}
 				if v.telem[ti] == wasmenc.FuncRef {
 					switch {
+					case len(mutByVT[wasmenc.FuncRef]) > 0 && cur != nil && g.pct(15, "elem-item-mutable-global"):
+						// deliberately invalid: the item reads a MUTABLE imported global
+						gi := pick(g, mutByVT[wasmenc.FuncRef], "elem-item-mutable-global-idx")
+						it = Expr{K: "gget", V: uint64(gi)}
+						g.pending = cur.globals[gi]
+					case wrongType(wasmenc.FuncRef) >= 0 && g.pct(6, "elem-item-wrong-type"):
+						it = Expr{K: "gget", V: uint64(wrongType(wasmenc.FuncRef))}
 					case len(immByVT[wasmenc.FuncRef]) > 0 && g.pct(25, "elem-item-global"):
 						it = Expr{K: "gget", V: uint64(pick(g, immByVT[wasmenc.FuncRef], "elem-item-global-idx"))}
 					case nF > 0 && g.pct(80, "elem-item-func"):
 						it = Expr{K: "func", V: uint64(g.n(0, nF-1, "elem-item-func-idx"))}
 					}
+				} else if len(mutByVT[wasmenc.ExternRef]) > 0 && cur != nil && g.pct(15, "elem-item-mutable-extern-global") {
+					gi := pick(g, mutByVT[wasmenc.ExternRef], "elem-item-mutable-global-idx")
+					it = Expr{K: "gget", V: uint64(gi)}
+					g.pending = cur.globals[gi]
+				} else if wrongType(wasmenc.ExternRef) >= 0 && g.pct(6, "elem-item-wrong-type") {
+					it = Expr{K: "gget", V: uint64(wrongType(wasmenc.ExternRef))}
 				} else if len(immByVT[wasmenc.ExternRef]) > 0 && g.pct(30, "elem-item-extern-global") {
 					it = Expr{K: "gget", V: uint64(pick(g, immByVT[wasmenc.ExternRef], "elem-item-global-idx"))}
 				}
@@ -886,6 +908,35 @@ func (g *gen) closeStep() bool {
 		g.hot = nil
 	}
 	return true
+}
+
+// changeGlobal writes the mutable funcref/externref global gl through some live instance.
+func (g *gen) changeGlobal(gl *mGlobal) {
+	for _, n := range g.m.order {
+		in := g.m.live[n]
+		i := indexOf(in, gl)
+		if i < 0 || !in.v.gt[i].mut {
+			continue
+		}
+		st := Step{Op: "acc", Inst: n, Idx: i}
+		if gl.vt == wasmenc.FuncRef {
+			if len(in.funcs) == 0 {
+				continue
+			}
+			st.Acc = "gsetf"
+			k := g.n(1, len(in.funcs), "change-funcref")
+			if in.ftab[k] == gl.fn && len(in.funcs) > 1 {
+				k = k%len(in.funcs) + 1
+			}
+			st.Args = []uint64{uint64(k)}
+		} else {
+			st.Acc = "gset"
+			st.Args = []uint64{gl.lo + 1 + uint64(g.n(0, 5, "change-externref"))}
+		}
+		g.c.Script = append(g.c.Script, st)
+		g.m.eval(st)
+		return
+	}
 }
 
 type zombie struct {
@@ -1241,6 +1292,10 @@ func genCase(t *rapid.T) *Case {
 		case newMod:
 			k := len(g.c.Specs)
 			g.c.Specs = append(g.c.Specs, g.genSpec(k))
+			if g.pending != nil {
+				g.changeGlobal(g.pending) // so that its current value differs from its initial one
+				g.pending = nil
+			}
 			g.instStep(k, g.c.Specs[k].Name, 30)
 		case g.pct(10, "re-instantiate"):
 			k := g.n(0, len(g.c.Specs)-1, "re-spec")
